@@ -396,13 +396,28 @@ def mutation_of(fn):
                             flagged.append('%s: out=%s (line %d)' % (fn.name, base_name(kw.value), n.lineno))
                         if kw.arg == 'copy' and isinstance(kw.value, ast.Constant) and kw.value.value is False:
                             pass
-            for field in ('body', 'orelse', 'finalbody'):
-                sub = getattr(st, field, None)
-                if isinstance(sub, list) and not isinstance(st, (ast.FunctionDef, ast.ClassDef)):
-                    visit(sub)
+            if isinstance(st, (ast.FunctionDef, ast.ClassDef)):
+                continue
+            # branches: a name is borrowed after the statement if it is borrowed on ANY path through it
+            # (an `if` that rebinds the name to a fresh value on one path only leaves it borrowed)
+            subs = [getattr(st, f) for f in ('body', 'orelse', 'finalbody') if isinstance(getattr(st, f, None), list)]
             if isinstance(st, ast.Try):
-                for h in st.handlers:
-                    visit(h.body)
+                subs += [h.body for h in st.handlers]
+            if subs:
+                before = set(borrowed)
+                merged = set()
+                paths = list(subs)
+                if isinstance(st, ast.If) and not st.orelse:
+                    merged |= before                    # the fall-through path
+                if isinstance(st, (ast.For, ast.While, ast.Try, ast.With)):
+                    merged |= before                    # zero iterations / no exception
+                for sub in paths:
+                    borrowed.clear()
+                    borrowed.update(before)
+                    visit(sub)
+                    merged |= set(borrowed)
+                borrowed.clear()
+                borrowed.update(merged)
     visit(fn.body)
     return flagged
 
